@@ -1,6 +1,6 @@
 (* Properties/C16.v — strain output is consistent with the star rating it explains *)
-From Coq Require Import ZArith List Bool Floats.
-From V Require Import F64 StrainsVec StrainsVecProofs Aggregate Gradual Sections AggregateProofs.
+From Coq Require Import ZArith List Bool Floats Reals Lia.
+From V Require Import Tables F64 FExact FInt StrainsVec StrainsVecProofs Aggregate Gradual Sections AggregateProofs SecTerm SecFacts.
 Import ListNotations.
 Open Scope Z_scope.
 
@@ -37,3 +37,56 @@ Theorem C16_section_count_skill_independent :
   end.
 Proof. exact section_count_skill_independent. Qed.
 Print Assumptions C16_section_count_skill_independent.
+
+(* the section loop terminates (binary64 arithmetic, Flocq): for every section length that is an
+   integer in [256, 1024] and every list of finite object times within +-2^38 ms (the decoder caps
+   times at i32::MAX ms and the clock rate is at least 0.01), every skill - whatever its strain
+   functions - is processed completely and exports at least one peak; in particular the fuel the
+   executable model computes is always enough, so a model result is never an artefact of the fuel *)
+Theorem C16_section_loop_terminates :
+  forall (St : Type) (strain_value_at : St -> Z -> float * St)
+         (initial_strain : St -> float -> Z -> float)
+         (L : float) (l : Z) (st0 : St) (times : list float),
+  IntF L l -> 256 <= l <= 1024 -> Forall time_ok times ->
+  exists peaks, skill_export St strain_value_at initial_strain L st0 times = Some peaks
+                /\ (1 <= length peaks)%nat.
+Proof. exact skill_export_total. Qed.
+Print Assumptions C16_section_loop_terminates.
+
+(* ... and the number of sections the loop adds for one object is explicit: from an end at the k-th
+   multiple of l it is max 0 (ceil(t / l) - k), every fuel above it gives the same result, and the
+   new end is the first multiple of l that is not below t (no rounding error accumulates) *)
+Theorem C16_section_loop_steps : forall (L t e : float) (l k pushed : Z),
+  IntF L l -> 0 < l <= 2 ^ 20 -> IntF e (k * l) -> Z.abs (k * l) <= 2 ^ 52 ->
+  fin t -> (RV t <= IZR (2 ^ 52))%R ->
+  let n := sec_steps t l k in
+  (forall fuel, (n < fuel)%nat ->
+     sec_while fuel L t e pushed = Some (addn n e L, pushed + Z.of_nat n))
+  /\ IntF (addn n e L) ((k + Z.of_nat n) * l)
+  /\ Z.abs ((k + Z.of_nat n) * l) <= 2 ^ 52 + 2 ^ 20
+  /\ ~ (RV (addn n e L) < RV t)%R
+  /\ (n = 0%nat \/ (RV (addn n e L) - IZR l < RV t)%R).
+Proof. exact sec_while_terminates. Qed.
+Print Assumptions C16_section_loop_steps.
+
+(* what the source says now: every SECTION_LENGTH / SECTION_LEN constant is such an integer, and the
+   loop has the transcribed shape and is the only writer of the section end *)
+Theorem C16_section_facts_now : forallb snd section_facts = true /\ (4 <= length section_facts)%nat
+  /\ forallb len_ok section_lengths = true /\ (2 <= length section_lengths)%nat.
+Proof.
+  exact (conj tables_section_facts (conj tables_section_facts_present
+          (conj tables_section_lengths_ok tables_section_lengths_present))).
+Qed.
+Print Assumptions C16_section_facts_now.
+
+Theorem C16_section_lengths_terminate : forall p, In p section_lengths ->
+  forall times, Forall time_ok times ->
+  exists n, section_count (of_Z (snd p)) times = Some n /\ 1 <= n.
+Proof. exact section_lengths_terminate. Qed.
+Print Assumptions C16_section_lengths_terminate.
+
+(* non-vacuity: 400 and 750 are such lengths, and integral times up to 2^38 are admissible *)
+Example C16_lengths_admissible : IntF 400%float 400 /\ IntF 750%float 750.
+Proof. exact (conj L400 L750). Qed.
+Example C16_times_admissible : Forall time_ok [of_Z 0; of_Z 1250; of_Z (-3000); of_Z 274877906944].
+Proof. repeat (apply Forall_cons; [apply time_ok_of_Z; unfold TB; lia|]). apply Forall_nil. Qed.
